@@ -190,7 +190,8 @@ CLAIMS = {
              "attributes/details, both bases, summarize_premium both ways; conservation checked by the Spec on the "
              "implementation's output.",
         note=COMMON_NOTE + "exp/log of log_industry_lr are parameters of the model (key binding proved; value compared "
-             "in Python with rtol 1e-9).",
+             "in Python with rtol 1e-9)."
+             " Audit follow-up: defect D28 repaired (fix commit; with summarize_premium=False a premium/exposure field takes the value of the FIRST CELL OF THE COORDINATE THAT HAS ONE: no_premium_sum, no_premium_value_existing, spec_nonLossOkStrict without hypothesis; regress seed regress_D28). Known finding D29 (KNOWN-FINDING line for that signature only): the weighted average of a ratio field keeps the weights of cells WITHOUT a value in the denominator (summarize_ratio_spec states exactly that; witness ratio_denominator_counts_valueless_weights). summarize_error_class_exact: the TriangleError class for an unknown field in ANY coordinate group; summarize_wavglog_spec / summarize_log_industry_lr_spec: the exp/log rule's shape for an arbitrary transcendental pair (exp/log themselves outside the model). Accepted reading pinned by a witness: a detail shared by every cell with value None is dropped (shared_none_detail_dropped: None means no value).",
         tech="Lean 4 theorems over regenerated rule tables (decide +kernel) and over Q + differential correspondence"),
     "C11": dict(level=PV, ref="§7 C11",
         text="85 kernel-checked theorems, none open, about clip (six inclusive bounds incl. development lag in "
@@ -373,7 +374,8 @@ CLAIMS = {
              "every working plot_* method validated against altair's bundled Vega-Lite schema with one facet per slice.",
         note=COMMON_NOTE + "altair/Vega-Lite validity and the chart builders are library behaviour (correspondence only); "
              "sd uses a square root (compared through its square); plot_drip/plot_hose fail on the unchanged tree with "
-             "the installed altair and are excluded (probed and listed each run); ratios at tolerance 2^-40.",
+             "the installed altair and are excluded (probed and listed each run); ratios at tolerance 2^-40."
+             " Audit follow-up: the statistics are characterised independently of the model's formulas (order_statistics, sortRat_unique, minimum_is_least, maximum_is_greatest, quantile_between, quantile_at_grid, quantile_zero, quantile_one, median_eq_quantile_half, mean_mul_length, variance_pair and variance_eq_mean_sq pinning the POPULATION variance); flat and keep_samples are modelled (flat_unflat via flat_keys_injective, flatOk_model, keepSamples_stats_unchanged, keepSamples_metric_entry, keptOk_model); ValidT (no two cells share metadata, period and evaluation date; value keys of a cell distinct) is necessary (validT_necessary). The oracle for the implementation's numbers is the harness's recomputation with Python fractions. Outside: the square root of sd; Vega-Lite validity and chart layout (correspondence only; facet count compared with the model's slice count); with flat=True and keep_samples=True the sample dict is flattened to keys metric_<i> without the metric name, so samples of different metrics overwrite each other in the flat record (quirk of _flatten_dict; those keys are ignored by the check); numpy's summation order (means compared with tolerance 2^-40).",
         tech="Lean 4 theorems over Q (quantile monotonicity) and over regenerated tables + record-level correspondence"),
 }
 
